@@ -82,6 +82,33 @@ def handle (op : String) (a : List String) (impl : String) : Option Verdict :=
   | "c04.step", [sh, bs, ax] => do
     let shape ← parseNats sh; let data ← parseBits bs; let axes ← parseNats ax
     pure (margRender (marginalize ⟨data, shape⟩ axes) impl s!"marg-stepwise-{axes.length}of{shape.length}")
+  | "c03.project", [sh, bs, ts] => do
+    let shape ← parseNats sh; let data ← parseBits bs; let toShape ← parseNats ts
+    match project (⟨data, shape⟩ : Arr XR) toShape with
+    | .ok b =>
+      if impl.startsWith "OK " then pure (cmpArr (impl.drop 3).toString b.shape b.data (some (sumAbs data))
+        (if toShape == shape then "project-identity" else s!"project-d{shape.length}"))
+      else pure (.bad s!"OK {showNats b.shape}|{showXRs b.data}")
+    | .error .empty => pure (cmpStr impl "ERR empty" "project-err-empty")
+    | .error (.invalidProjection d f t) => pure (cmpStr impl s!"ERR invalid {d} {f} {t}" "project-err-invalid")
+    | .error (.unequalDimensions f t) => pure (cmpStr impl s!"ERR dims {f} {t}" "project-err-dims")
+    | .error .zero => pure (cmpStr impl "ERR zero" "project-err-zero")
+  | "c03.two", [sh, bs, _mid, ts] => do
+    let shape ← parseNats sh; let data ← parseBits bs; let toShape ← parseNats ts
+    match project (⟨data, shape⟩ : Arr XR) toShape with
+    | .ok b =>
+      if impl.startsWith "OK " then pure (cmpArr (impl.drop 3).toString b.shape b.data (some (sumAbs data)) "project-two-step")
+      else pure (.bad s!"OK {showNats b.shape}|{showXRs b.data}")
+    | .error _ => pure (cmpStr impl "ERR" "project-two-step-error")
+  | "c03.pmf", [bn, bk, sn, sk] => do
+    let N ← bn.toNat?; let K ← bk.toNat?; let n ← sn.toNat?; let k ← sk.toNat?
+    let b ← parseHexNat impl
+    let q : XR := hyper N K n k
+    let v := f64OfBits b
+    let floor : Rat := 1 / ((2 ^ 900 : Nat) : Rat)
+    let sizeTag := if N ≤ 170 then "le170" else if N < 1030 then "171to1029" else "ge1030"
+    if v.agrees q (some floor) then pure (.ok s!"pmf-{sizeTag}-{if q == XR.fin 0 then "zero" else "pos"}")
+    else pure (.bad (q.render))
   | "c13.view", [sh, bs, rm, kp, ps, pi, mk, nm] | "c13.chain", [sh, bs, rm, kp, ps, pi, mk, nm] => do
     let shape ← parseNats sh; let data ← parseBits bs
     let rm ← optNats rm; let kp ← optNats kp; let ps ← optNats ps; let pi ← optNats pi
